@@ -1,4 +1,5 @@
 import Sentinel.Model.Bucket
+import Sentinel.Model.Throttle
 /-!
 # M-WU — warm-up and memory-adaptive threshold calculators (core Lean only, executable)
 
@@ -32,6 +33,8 @@ class Carrier (α : Type) extends Add α, Sub α, Mul α, Div α where
   ltb : α → α → Bool
   /-- `util.Float64Equals(x, y)`: `|x - y| < 1e-8` -/
   feq : α → α → Bool
+  /-- `int64(math.Ceil(x))` for a finite in-range `x` -/
+  ceil : α → Int
 
 open Carrier
 
@@ -48,6 +51,7 @@ instance : Carrier Float where
   next := floatNext
   ltb x y := decide (x < y)
   feq x y := decide ((x - y).abs < 0.00000001)
+  ceil x := x.ceil.toInt64.toInt
 
 instance : Carrier Rat where
   ofNat n := (n : Rat)
@@ -56,6 +60,7 @@ instance : Carrier Rat where
   next q := q
   ltb x y := decide (x < y)
   feq x y := decide ((if x < y then y - x else x - y) < (1 : Rat) / 100000000)
+  ceil q := q.ceil
 
 /-! ## warm-up: constructor -/
 
@@ -172,6 +177,10 @@ structure Sys (α : Type) where
   mem : Int := -1
   /-- the rule object the controller in force is bound to (`TrafficShapingController.rule`) -/
   bound : Option (RuleP α) := none
+  /-- `ControlBehavior`: `none` = Reject, `some maxQueueingTimeMs` = Throttling (`ThrottlingChecker`) -/
+  behav : Option Nat := none
+  /-- `ThrottlingChecker.lastPassedTime` (ns) -/
+  last : Int := 0
 
 def nodeN : Nat := 20    -- GlobalStatisticSampleCountTotal
 def nodeL : Nat := 500   -- GlobalStatisticIntervalMsTotal / GlobalStatisticSampleCountTotal
@@ -235,14 +244,46 @@ def loadAdaptive {α} (s : Sys α) (now : Nat) (m : MemCfg) (sc Iv : Nat) : Sys 
     an invalid rule leaves the resource without controller; a rule equal to the bound one keeps the old
     controller with its calculator state; anything else gets a freshly constructed calculator
     (`storedTokens = 0`, `lastFilledTime = 0`) over the view `(sc, Iv)` of the new `StatIntervalInMs` -/
-def loadRule {α} [Carrier α] (s : Sys α) (now : Nat) (r : RuleP α) (valid : Bool) (sc Iv : Nat) : Sys α :=
+def loadRule {α} [Carrier α] (s : Sys α) (now : Nat) (r : RuleP α) (q : Option Nat) (valid : Bool) (sc Iv : Nat) : Sys α :=
   let fresh : Sys α := match r with
-    | .wu T p cf _ => { loadWarmUp s now T p cf sc Iv with bound := some r.norm }
-    | .ma m _ => { loadAdaptive s now m sc Iv with bound := some r }
-  if !valid then { s with rule := none, bound := none, tok := {} }
+    | .wu T p cf _ => { loadWarmUp s now T p cf sc Iv with bound := some r.norm, behav := q, last := 0 }
+    | .ma m _ =>
+      -- MemoryAdaptive + Throttling is given the nop statistic: the resource node is not created by the load
+      { (if q.isSome then { s with rule := some (.adaptive m, sc, Iv), tok := {} } else loadAdaptive s now m sc Iv) with
+        bound := some r, behav := q, last := 0 }
+  if !valid then { s with rule := none, bound := none, tok := {}, behav := none }
   else match s.bound with
-    | some b => if b.same r then s else fresh
+    | some b => if b.same r && s.behav == q then s else fresh
     | none => fresh
+
+/-- what `ThrottlingChecker.DoCheck` decides from the calculated threshold before touching `lastPassedTime`:
+    `threshold <= 0` or `batch > threshold` ⇒ blocked; else `intervalNs = ⌈batch / threshold · statIntervalNs⌉`.
+    (A NaN threshold — `warmup-nan` — makes the interval conversion implementation-defined; never generated, classed as blocked.) -/
+def throttleClass {α} [Carrier α] (thr : Option α) (batch statNs : Nat) : Throttle.Req :=
+  if batch = 0 then .zero else
+  match thr with
+  | none => .excess
+  | some t =>
+    if !(ltb (ofNat 0) t) then .excess
+    else if ltb t (ofNat batch) then .excess
+    else .norm (Carrier.ceil (ofNat batch / t * ofNat statNs))
+
+/-- one `api.Entry` + `Exit` under a Throttling rule at wall time `nowNs` (ns): the calculated threshold goes to the
+    throttling checker (`Sentinel.Throttle.doCheck`, C10's model); a `wait w` outcome makes the flow slot sleep, i.e. the
+    clock advances by `w` before the pass is recorded.  Returns the new state, the outcome and the clock afterwards. -/
+def probe {α} [Carrier α] (s : Sys α) (nowNs batch : Nat) : Sys α × Throttle.Res × Nat :=
+  let now := nowNs / 1000000
+  let s := s.touch now
+  match s.arr, s.rule, s.behav with
+  | some a, some (_, _, Iv), some maxQ =>
+    let (tk, thr) := threshold s a now
+    let cls := throttleClass (thr.getD none) batch (Iv * 1000000)
+    let (last', res) := Throttle.doCheck ((maxQ : Int) * 1000000) s.last nowNs cls
+    let after : Nat := match res with | .wait w => nowNs + w.toNat | _ => nowNs
+    let ev := match res with | .block => evBucket .block batch | _ => evBucket .pass batch
+    let a' := (addAt a (after / 1000000) ev).1
+    ({ s with arr := some a', tok := tk, last := last' }, res, after)
+  | _, _, _ => (s, .pass, nowNs)
 
 /-! ## the regions of the recorded findings, as decidable predicates on the calculator's fields -/
 namespace Known
